@@ -21,6 +21,7 @@ mod reasm;
 mod recvcredit;
 mod session;
 mod sessionwire;
+mod settle;
 mod spinprobe;
 
 use common::Opts;
@@ -78,6 +79,7 @@ fn main() {
         "recvcredit" => recvcredit::main(&opts),
         "reasm" => reasm::main(&opts),
         "ids" => ids::main(&opts),
+        "settle" => settle::main(&opts),
         "sessionwire" => sessionwire::main(&opts),
         "life" => life::main(&opts),
         other => {
